@@ -48,8 +48,17 @@ CONFIGS = {
 }
 
 # Kani flag sets. Unwinding checks are never disabled.
+# CBMC_ARGS: arrays up to 2048 elements stay field-sensitive in CBMC (default 64): constants written into
+# large byte buffers (type codes, level counts) then propagate through symbolic execution, which
+# makes parser harnesses ~25x cheaper (measured: 344 s -> 12 s).
+CBMC_ARGS = {
+    "std": ["--max-field-sensitivity-array-size", "2048"],
+    "eq": ["--max-field-sensitivity-array-size", "2048"],
+    "std64": [],
+}
 FLAGSETS = {
     "std": [],
+    "std64": [],
     # equational harnesses: memory-safety/overflow of the same functions is the subject of the
     # Havoc harnesses; dropping the default checks halves symbolic execution
     "eq": ["--no-default-checks", "--no-assertion-reach-checks"],
@@ -68,7 +77,10 @@ COMMON_ASSUMPTIONS = [
 
 PROPERTY_ASSUMPTIONS = {}
 
-SMT_LEMMAS = []
+SMT_LEMMAS = [
+    {"prop": "C12", "tier": "quick", "name": "c12_lemma_i_sum_monotone"},
+    {"prop": "C12", "tier": "quick", "name": "c12_lemma_ii_digit_order"},
+]
 
 _H = []
 
@@ -157,17 +169,17 @@ _real_fns = _sign_fns + ["LmsSignature::sign / build_authentication_path", "lms:
                          "LmsPrivateKey::use_lmots_private_key", "generate_signature_randomizer / SeedDerive"]
 _sum_stub = DEFAULT_STUBS + ["HashChain::do_actual_hash_chain overridden by HavocSum16 (one havoc step)"]
 for c in (0, 1, 2, 3):
-    H("C04", "quick" if c in (0, 3) else "thorough", "c04", f"c04_protocol_real_h2w8_l1_c{c}", config="l1w8h5", timeout=3600,
+    H("C04", "thorough", "c04", f"c04_protocol_real_h2w8_l1_c{c}", config="l1w8h5", flagset="eq", timeout=14400,
       model="HavocSum16 (digests havoc, Winternitz chain summarised by the HashChain override)", encodes=_real_fns, unwind=36,
       forall=f"1 level H2(hook)/W8, counter {c} (one instance per counter value 0..3): every 16-byte seed, every message of length 0..4, both callback outcomes",
       bounds="4-leaf tree, W8 (18 chains), n=16", stubs=_sum_stub)
 for c in (0, 3, 4, 15):
-    H("C04", "thorough", "c04", f"c04_protocol_real_h2w8_l2_c{c}", config="l2w8h5", timeout=7200, model="HavocSum16",
+    H("C04", "thorough", "c04", f"c04_protocol_real_h2w8_l2_c{c}", config="l2w8h5", flagset="eq", timeout=28800, model="HavocSum16",
       encodes=_real_fns + ["lms::generate_key_pair", "generate_child_seed_and_lms_tree_identifier"], unwind=36,
       forall=f"2 levels H2/W8, counter {c} (instances 0, 3, 4 = roll-over into a fresh subtree, 15 = last leaf): seed, message, both outcomes",
       bounds="4-leaf trees, W8, n=16", stubs=_sum_stub)
 for c in (0, 2, 3):
-    H("C04", "quick" if c == 3 else "thorough", "c04", f"c04_signing_key_entry_h2w8_l1_c{c}", config="l1w8h5", timeout=3600, model="HavocSum16",
+    H("C04", "thorough", "c04", f"c04_signing_key_entry_h2w8_l1_c{c}", config="l1w8h5", flagset="eq", timeout=14400, model="HavocSum16",
       encodes=_real_fns + ["SigningKey::from_bytes / try_sign / try_sign_with_aux / get_lifetime / as_slice"], unwind=36,
       forall=f"1 level H2/W8, counter {c}: seed, 3-byte message; sign, lifetime before/after, second sign after exhaustion", bounds="4-leaf tree, W8, n=16", stubs=_sum_stub)
 _contract_stubs = DEFAULT_STUBS + ["lms::generate_key_pair -> contracts::model_generate_key_pair (same private key, havoc root)",
@@ -178,7 +190,7 @@ _pre_fns = ["hss::hss_sign / hss_sign_core (up to the expansion)", "ReferenceImp
             "HssPrivateKey::get_expanded_aux_data", "SigningKey::from_bytes / get_lifetime"]
 for prop in ("C04", "C11"):
     for name, n, aux in (("c04_malformed_key_n16", 16, False), ("c04_malformed_key_aux_n16", 16, True), ("c04_malformed_key_n32", 32, False)):
-        H(prop, "quick", "c04", name, config="w8", timeout=3600, model=f"HavocSum{n}", encodes=_pre_fns, unwind=36, replayable="try",
+        H(prop, "thorough" if aux else "quick", "c04", name, config="w8", timeout=3600, model=f"HavocSum{n}", encodes=_pre_fns, unwind=36, replayable="try",
           stubs=DEFAULT_STUBS + ["HssPrivateKey::from -> contracts::model_from_fails (the expansion always fails: every path ends in an error)"],
           forall="every private-key byte string of every length 0..40 (all 256 values of every byte), 2-byte message, both callback outcomes"
                  + (", every auxiliary buffer of every length 0..48 and content" if aux else ""),
@@ -186,7 +198,7 @@ for prop in ("C04", "C11"):
 H("C04", "quick", "c04", "c04_sign_fails_no_callback", config="l1w8h5", timeout=1800, model="HavocSum16", encodes=_sign_fns, unwind=36, replayable=False,
   stubs=DEFAULT_STUBS + ["HssSignature::sign -> contracts::model_hss_sign_fails"], forall="1 level H2/W8, counter 1, every seed, both callback outcomes; signing proper fails",
   bounds="n=16")
-for prop in ("C03", "C05"):
+for prop in ("C03", "C04", "C05"):
     for name, cfg, tier in (("c03_step_contract_h5_h10_h25", "w8", "quick"), ("c03_step_contract_h25_h5", "w8", "quick"), ("c03_step_contract_h20", "w8", "quick"),
                             ("c03_step_contract_h15_h15_h15_h15", "w8", "thorough"), ("c03_step_contract_8x_h5", "w8", "thorough")):
         H(prop, tier, "c04", name, config=cfg, timeout=7200, model="HavocSum16", encodes=_sign_fns + ["SigningKey::get_lifetime", "HssPrivateKey::get_lifetime"],
@@ -213,3 +225,79 @@ for n in (16, 32):
       encodes=["LmsSignature::to_binary_representation", "LmotsSignature::to_binary_representation"],
       forall="every leaf index, randomizer, chain value and path node content; 3 chain values, 2 path nodes",
       bounds="element counts 3 / 2 (the serialiser is a loop over elements; more elements repeat the same body)")
+
+# ---------------------------------------------------------------------------------------------
+# C08 blob layout / nibble packing / public key layout
+for L in range(1, 9):
+    H("C08", "quick" if L in (1, 2, 8) else "thorough", "c08", f"c08_blob_n32_l{L}", timeout=1800, model="Havoc32 (no digest computed)",
+      encodes=["ReferenceImplPrivateKey::generate / to_binary_representation / from_binary_representation", "CompressedParameterSet::from / to / from_slice",
+               "CompressedUsedLeafsIndexes::new / from_slice", "HssParameter::new"],
+      forall=f"every list of {L} levels over all 4 W x 5 H (symbolic), every 32-byte seed, every 64-bit counter", bounds="exact", unwind=36)
+H("C08", "quick", "c08", "c08_blob_n24_l2", timeout=1800, model="Havoc24", encodes=["as c08_blob_n32_*"], forall="2 levels, all W x H, seed, counter; n = 24", bounds="exact", unwind=36)
+H("C08", "quick", "c08", "c08_blob_n16_l3", timeout=1800, model="Havoc16", encodes=["as c08_blob_n32_*"], forall="3 levels, all W x H, seed, counter; n = 16", bounds="exact", unwind=36)
+H("C08", "quick", "c08", "c08_blob_length_check", timeout=900, model="Havoc16/24/32", encodes=["ReferenceImplPrivateKey::from_binary_representation"],
+  forall="every byte string of every length 0..56, for n = 16, 24, 32", bounds="exact", unwind=36)
+for n in (16, 24, 32):
+    H("C08", "quick", "c08", f"c08_hss_public_key_layout_n{n}", timeout=900, model=f"Havoc{n}", encodes=["HssPublicKey::to_binary_representation", "LmsPublicKey::to_binary_representation"],
+      forall="every level count 1..8, all W x H type codes, every identifier and root", bounds="exact", unwind=36)
+
+# ---------------------------------------------------------------------------------------------
+# C16 zeroize (real zeroize code; tinyvec default NOT stubbed)
+_z_stub = ["zeroize::optimization_barrier -> no-op (empty asm! block; the wipe itself is the volatile writes around it)"]
+for name in ("c16_seed_zeroize_and_drop", "c16_seed_and_identifier_zeroize_and_drop", "c16_reference_private_key_zeroize_and_drop",
+             "c16_lms_private_key_zeroize_and_drop", "c16_lmots_private_key_zeroize", "c16_lmots_private_key_drop"):
+    H("C16", "quick", "c16", name, config="w8", timeout=3600, model="Havoc32 (n = 32: the whole 32-byte seed container is observable)", stubs=_z_stub,
+      encodes=["derive(Zeroize, ZeroizeOnDrop) glue of the type", "zeroize::Zeroize for [u8; N] / u32 / u64 (volatile writes)", "util::ArrayVecZeroize (DefaultIsZeroes)", "drop glue"],
+      forall="every content of every secret field (seed bytes, identifier, leaf index, counter, every chain value up to the container capacity)",
+      bounds="build configuration w8: LM-OTS key container capacity 34 chain values; exact", unwind=52)
+
+# ---------------------------------------------------------------------------------------------
+# C02 structural rejections / C06 verify-level totality
+_ver_fns = ["hss::hss_verify", "InMemoryHssSignature::new", "InMemoryHssSignedPublicKey::new", "InMemoryLmsSignature::new", "InMemoryLmotsSignature::new",
+            "InMemoryHssPublicKey::new", "InMemoryLmsPublicKey::new", "hss::verify::verify", "lms::verify::verify / generate_public_key_candidate",
+            "lm_ots::verify::generate_public_key_candidate", "LmotsParameter::append_checksum_to", "util::coef::coef", "HashChain::do_hash_chain"]
+for prop in ("C02", "C06"):
+    for name, tier in (("c02_verify_structs_l1", "quick"), ("c02_verify_structs_l1_pk_level0", "quick"), ("c02_verify_structs_l1_pk_level2", "quick"),
+                       ("c02_verify_structs_l2", "quick"), ("c02_verify_structs_l2_pk_level1", "thorough"), ("c02_verify_structs_l2_pk_level3", "thorough")):
+        H(prop, tier, "c02", name, timeout=3600, model="HavocSum16 (every digest havoc: the root comparison can always be made to succeed)",
+          encodes=["hss::verify::verify", "lms::verify::verify / generate_public_key_candidate", "lm_ots::verify::generate_public_key_candidate",
+                   "InMemoryLmsPublicKey::new", "InMemoryLmsSignature::get_path", "InMemoryLmotsSignature::get_signature_data",
+                   "LmotsParameter::append_checksum_to", "util::coef::coef", "HashChain::do_hash_chain"], unwind=20,
+          forall="parsed signature structure of the n=16/W8/H5 shape with symbolic leaf indices, randomizers, chain values, paths and (2 levels) child public key bytes; "
+                 "public key with symbolic type codes, identifier and root; level counts concrete per instance; 3-byte message",
+          bounds="one- and two-level shapes of n=16/W8/H5; the parsers that produce the structures are covered by c06_parse_* and c02_parse_agreement_*",
+          stubs=DEFAULT_STUBS + ["HashChain::do_actual_hash_chain overridden by HavocSum16"])
+    for name in ("c02_parse_agreement_l1", "c02_parse_agreement_l2"):
+        H(prop, "quick", "c02", name, timeout=1800, model="HavocSum16 (parsers compute no digest)", encodes=_parse_fns + ["InMemoryHssPublicKey::new"], unwind=8,
+          forall="exact-shape byte strings (type codes and level count assigned), every other byte symbolic; lengths exact and +-1",
+          bounds="n=16/W8/H5, one and two levels")
+
+# ---------------------------------------------------------------------------------------------
+# transcripts under the recording hashers: derivation (C08), signing content (C07), tree identity (C03)
+_rec = "RecN: digests come from a symbolic tape, every query's first 64 bytes, length and a fingerprint of the whole query are recorded"
+for n in (16, 24, 32):
+    for prop in ("C08", "C09") if n == 32 else ("C08",):
+        H(prop, "quick", "c08d", f"c08_root_seed_derivation_n{n}", timeout=900, model=_rec, encodes=["ReferenceImplPrivateKey::generate_root_seed_and_lms_tree_identifier", "Seed::from / as_slice"],
+          forall="every 32-byte seed container content, every digest value", bounds="exact", unwind=70)
+    for prop in ("C08", "C03", "C07"):
+        H(prop, "quick", "c08d", f"c08_child_seed_and_randomizer_n{n}", timeout=900, model=_rec,
+          encodes=["generate_child_seed_and_lms_tree_identifier", "generate_signature_randomizer", "SeedDerive::seed_derive"],
+          forall="every parent seed, identifier and 32-bit leaf index, every digest value", bounds="exact", unwind=70)
+for name in ("c08_ots_private_key_n16_w8", "c08_ots_private_key_n24_w8", "c08_ots_private_key_n32_w8", "c08_ots_private_key_n16_w4"):
+    H("C08", "quick", "c08d", name, timeout=1800, model=_rec, encodes=["lm_ots::keygen::generate_private_key"],
+      forall="every seed, identifier, 32-bit leaf index, every digest value", bounds="p <= 35 chains (W8 for all n, W4 for n=16); the 265-chain case (n=32, W1) is outside", unwind=70)
+_recsum = _rec + "; Winternitz chain recorded as one summarised step (HashChain override), the default loop is covered by c07_chain_default_loop_*"
+for name in ("c08_ots_public_key_n16_w8", "c08_ots_public_key_n32_w8", "c08_ots_public_key_n16_w4"):
+    H("C08", "quick" if name.endswith("n16_w8") else "thorough", "c08d", name, timeout=3600, model=_recsum, encodes=["lm_ots::keygen::generate_public_key", "HashChain::prepare_hash_chain_data / do_hash_chain"],
+      forall="every chain start value, identifier, leaf index, every digest value", bounds="p <= 35 chains", unwind=70)
+for name in ("c07_ots_sign_and_candidate_n16_w8", "c07_ots_sign_and_candidate_n16_w4", "c07_ots_sign_and_candidate_n32_w8"):
+    for prop in ("C07", "C01"):
+        H(prop, "quick" if name.endswith("n16_w8") else "thorough", "c08d", name, timeout=3600, model=_recsum,
+          encodes=["LmotsSignature::sign / sign_core / calculate_signature / calculate_message_hash", "lm_ots::verify::generate_public_key_candidate",
+                   "LmotsParameter::append_checksum_to", "util::coef::coef", "HashChain::do_hash_chain"],
+          forall="every chain start value, identifier, leaf index, randomizer, message of length 0..5, every digest value; reference digits from the Appendix-B formula",
+          bounds="p <= 35 chains; message <= 5 bytes (longer messages only lengthen H::update)", unwind=70)
+for n in (16, 32):
+    for prop in ("C07", "C08"):
+        H(prop, "quick", "c08d", f"c07_chain_default_loop_n{n}", timeout=900, model=_rec, encodes=["HashChain::do_hash_chain", "HashChain::do_actual_hash_chain (default body)", "HashChain::prepare_hash_chain_data"],
+          forall="every identifier, leaf index, 16-bit chain index, start value, start position 0..255, 0..3 steps", bounds="at most 3 consecutive steps per query (the loop body is the same for every j)", unwind=70)
